@@ -216,7 +216,13 @@ def end_checks(ex, s2, kind, val, inputs, N, J, where='end'):
             ex.require(s2, z3.Implies(inA, ex.stat(s2, out) == LIVE), 'returned array has a slot that is not initialised', where)
         for A in inputs:
             ex.require(s2, z3.Implies(inA, z3.Or(s2.status[A] == EXTERN, s2.status[A] == DROPPED)), 'input element neither handed to the closure nor dropped', where)
+        if ex.order:
+            for A in inputs:
+                ex.require(s2, z3.Implies(inA, s2.status[A] == EXTERN), 'an input element was not passed to the caller\'s function (not applied once per index)', where)
+            ex.require(s2, (bv(0) if s2.vid is None else s2.vid) == N, 'the caller\'s function was not called exactly N times', where)
     else:
+        if ex.order:
+            ex.require(s2, z3.BoolVal('own_panic' not in s2.notes), 'the operation panics on its own although no caller-supplied code panicked', where + '(unwind)')
         for A in inputs:
             ex.require(s2, z3.Implies(inA, z3.Or(s2.status[A] == EXTERN, s2.status[A] == DROPPED)), 'input element leaked on unwind', where + '(unwind)')
         for arr, stt in out_arrays(s2):
@@ -409,6 +415,8 @@ def op_try_from_iter(fns, src, nmax, name=None):
                 else:
                     for arr, stt in out_arrays(s2):
                         ex.require(s2, z3.Implies(inA, z3.Or(stt == UNINIT, stt == DROPPED)), 'items already stored are leaked on LengthError', 'end')
+                    truthful = z3.And(ULE(LO, C), ULE(C, HI)) if hi_variant == 'Some' else ULE(LO, C)
+                    ex.require(s2, z3.Not(z3.And(C == N, truthful)), 'LengthError although the source yields exactly N items and its size hint is truthful', 'end')
             else:
                 for arr, stt in out_arrays(s2):
                     ex.require(s2, z3.Implies(inA, z3.Or(stt == UNINIT, stt == DROPPED)), 'items already stored are leaked when the source panics', 'end(unwind)')
@@ -937,6 +945,12 @@ def serde_visit_seq(fns, src, nmax, name=None, mir_text=None):
             seen.add('err' if kind == 'ret' else 'unwind')
             for arr, stt in out_arrays(s2):
                 ex.require(s2, z3.Implies(inA, z3.Or(stt == UNINIT, stt == DROPPED)), 'elements already read are leaked (or a partially filled array escapes) on the error / panic path', 'end(%s)' % kind)
+            if kind == 'ret':
+                for q in s2.heap.values():
+                    if isinstance(q, dict) and q.get('kind') == 'seq' and not q.get('failed'):
+                        fh = q.get('first_hint', 'none')
+                        hint_ok = z3.BoolVal(True) if isinstance(fh, str) else fh == N
+                        ex.require(s2, z3.Not(z3.And(C == N, hint_ok)), 'rejected a well-formed input of exactly N elements', 'end')
         ex.require(s2, z3.Or(ex.stat(s2, ex.V) == UNINIT, ex.stat(s2, ex.V) == DROPPED, ex.stat(s2, ex.V) == STORED),
                    'an element read from the input was lost (neither stored nor dropped)', 'end(%s)' % kind)
     if not {'ok', 'err', 'unwind'} <= seen:
